@@ -239,7 +239,7 @@ func normalizeSpace(s string) string { return strings.Join(strings.Fields(s), " 
 // failure classes used as known-finding keys
 const (
 	clsGoBuild = "a //go:build (or // +build) line inside the rendered body is hoisted above the header comment"
-	clsAlign   = "a second gofmt pass only changes the alignment (spaces and tabs inside lines) of one-line declarations next to a declaration with interspersed comments (go/printer is not idempotent here)"
+	clsAlign   = "a second gofmt pass only changes the alignment (spaces and tabs inside lines) of a comment or of a one-line func, in a run of adjacent lines that holds both a comment and a one-line func (go/printer is not idempotent here)"
 	clsVarJoin = "a second gofumpt pass only regroups adjacent var declarations or inserts an empty line between adjacent declaration groups (gofumpt is not idempotent here)"
 )
 
@@ -256,19 +256,23 @@ func sameUpToInlineSpace(a, b string) bool {
 		if la[i] == lb[i] {
 			continue
 		}
-		// only the recorded shape: a differing line is a one-line func declaration in a run of adjacent
-		// one-line func declarations of which one carries a block comment
-		if !strings.HasPrefix(la[i], "func ") {
+		// only the recorded shape: the differing line carries a comment or is a one-line func declaration, inside a
+		// run of adjacent lines (no empty line between) that holds both a comment and a one-line func declaration
+		isFunc := func(l string) bool { return strings.HasPrefix(l, "func ") && strings.Contains(l, "{") && strings.HasSuffix(strings.TrimSpace(strings.SplitN(l, "//", 2)[0]), "}") }
+		hasComment := func(l string) bool { return strings.Contains(l, "//") || strings.Contains(l, "/*") }
+		if !isFunc(la[i]) && !hasComment(la[i]) {
 			return false
 		}
-		commented := false
-		for j := i; j >= 0 && strings.HasPrefix(la[j], "func "); j-- {
-			commented = commented || strings.Contains(la[j], "/*")
+		commented, oneLiner := false, false
+		for j := i; j >= 0 && strings.TrimSpace(la[j]) != ""; j-- {
+			commented = commented || hasComment(la[j])
+			oneLiner = oneLiner || isFunc(la[j])
 		}
-		for j := i; j < len(la) && strings.HasPrefix(la[j], "func "); j++ {
-			commented = commented || strings.Contains(la[j], "/*")
+		for j := i; j < len(la) && strings.TrimSpace(la[j]) != ""; j++ {
+			commented = commented || hasComment(la[j])
+			oneLiner = oneLiner || isFunc(la[j])
 		}
-		if !commented {
+		if !commented || !oneLiner {
 			return false
 		}
 	}
